@@ -224,12 +224,22 @@ def run_history(w, t, hist_log):
         w.start_polls()
         nseg = size // max(w.cfg.eff_seg, 1)
         at = 2 + t.choose(8 + 2 * min(nseg, 20), "history event after")
+        # junk may instead be timed by state: right after the receiver entered a step in which it waits for data
+        # although the EOF is in (late data, data beyond the EOF size and retransmissions all meet there)
+        by_state = kind == "junk" and t.choose(2, "junk when waiting for data") == 1
+        if by_state:
+            lk.rate = (1, 3)
+            lk.enabled = {"drop"}
         calls0 = w.calls_n
         acted = False
         start_t = w.clock.t
         limit_t = start_t + int((w.cfg.ack_lim * 2 + w.cfg.nak_lim + w.cfg.check_lim + 6) * max(w.cfg.ack_s, w.cfg.nak_s, w.cfg.check_s_recv, w.cfg.check_s_send) * 1000) + 8000
         while True:
-            if not acted and w.calls_n - calls0 >= at:
+            trigger = w.calls_n - calls0 >= at
+            if by_state:
+                trigger = b.handlers["dst"].step.name in ("WAITING_FOR_MISSING_DATA", "RECV_FILE_DATA_WITH_CHECK_LIMIT_HANDLING") \
+                    and not b.handlers["dst"].num_packets_ready
+            if not acted and trigger:
                 acted = True
                 if kind in ("cancel_src", "cancel_dst"):
                     ent, hk = (a, "src") if kind == "cancel_src" else (b, "dst")
@@ -252,6 +262,16 @@ def run_history(w, t, hist_log):
                     syn.data = data
                     syn.size = len(data)
                     syn.src_path, syn.dst_req = f"src/h{i}.bin", f"dst/h{i}.bin"
+                    if by_state:
+                        from spacepackets.cfdp.pdu import FileDataPdu
+                        from spacepackets.cfdp.pdu.file_data import FileDataParams
+
+                        tidh = b.handlers["dst"].transaction_id
+                        if tidh is not None:
+                            conf, _, _ = syn.conf(t, "FD", tidh.seq_num.value, pert=False)
+                            sgm = max(w.cfg.eff_seg, 1)
+                            off = len(data) + [sgm, 1, 0][t.choose(3, "beyond eof gap")]
+                            w.deliver(b, bytes(FileDataPdu(conf, FileDataParams(b"\x5a" * sgm, off, None)).pack()))
                     for _ in range(1 + t.choose(4, "n junk")):
                         to_b = t.choose(3, "junk at") != 2
                         jk = KINDS[t.weighted([2, 5, 3, 1, 2, 2, 2, 1, 1] if to_b else [1, 1, 1, 3, 1, 5, 4, 1, 1], "junk kind")]
